@@ -173,3 +173,135 @@ func suiteConvertPlain(R *runner, r *rng) {
 	}
 	_ = strings.TrimSpace
 }
+
+// pairs for which the library's conversion of STYLED sources is not the conversion through the plain view, with the
+// reason (what the source reader sets that the destination writer emits)
+var plainStyledSkipPairs = map[string]string{
+	"srt->srt":   "same format: the markup is kept (C01)",
+	"vtt->vtt":   "same format: tags, settings, regions are kept (C02)",
+	"ssa->ssa":   "same format: styles, override blocks, script info are kept (C04)",
+	"srt->vtt":   "bold/italic/underline travel as tags and the font colour as a class (modelled by Model/Conv.v, suites convsv/convops)",
+	"srt->ttml":  "the font colour travels as tts:color and every run is written as its own span",
+	"srt->stl":   "the STL writer joins the runs of a line with a space; the plain view puts run texts together",
+	"vtt->stl":   "the STL writer joins the runs of a line with a space",
+	"ssa->stl":   "the STL writer joins the runs of a line with a space",
+	"vtt->ssa":   "voice names travel as the Name column",
+	"ssa->vtt":   "the speaker name travels as a voice tag",
+	"vtt->ttml":  "regions and the default style are written as TTML layout/styling; runs as spans",
+	"ssa->ttml":  "the styles map is written as TTML styling; runs as spans",
+	"ttml->srt":  "harness-rendered TTML (self-closing tags, prefixes, comments) is outside the byte-level XML parser model's subset",
+	"ttml->vtt":  "outside the XML parser model's subset",
+	"ttml->ssa":  "outside the XML parser model's subset",
+	"ttml->stl":  "outside the XML parser model's subset",
+	"ttml->ttml": "outside the XML parser model's subset",
+}
+
+// Styled and metadata-bearing sources (documents of the C01/C02/C04 generators, TTML with styles and regions; run texts
+// replaced by Latin words) converted by the library, destination bytes compared with the conversion through the plain
+// view: for these pairs the destination writer ignores everything the source reader sets besides times and text
+// (C07_any_source then applies to the styled document).
+func suiteConvertPlainStyled(R *runner, r *rng) {
+	R.rule("conversion of styled sources through the plain view: styled SubRip, WebVTT with regions/settings/tags/voices, SSA/ASS with styles/script info/override blocks, TTML with styles/regions (run texts = Latin words), every destination among the modelled codecs except the pairs listed with their reason in plainStyledSkipPairs; destination bytes of the library vs convert_plain")
+	N := 12
+	if R.tier == "thorough" {
+		N = 200
+	}
+	byName := map[string]plainCodec{}
+	for _, c := range plainCodecs {
+		byName[c.name] = c
+	}
+	for c := 0; c < N; c++ {
+		for _, sf := range []string{"srt", "vtt", "ssa", "ttml"} {
+			src, ok := byName[sf]
+			if !ok {
+				continue
+			}
+			k := 0
+			var doc []byte
+			switch sf {
+			case "srt":
+				cues := randSrtCues(r, 5, true)
+				for i := range cues {
+					for j := range cues[i].Lines {
+						for q := range cues[i].Lines[j] {
+							cues[i].Lines[j][q].Text = richWord(r, &k)
+						}
+					}
+				}
+				d, _ := renderSrt(r, cues)
+				doc = []byte(d)
+			case "vtt":
+				d := randVttDoc(r, c%2 == 0)
+				for i := range d.Cues {
+					for j := range d.Cues[i].Lines {
+						for q := range d.Cues[i].Lines[j].Runs {
+							d.Cues[i].Lines[j].Runs[q].Text = richWord(r, &k)
+						}
+					}
+				}
+				doc = []byte(renderVtt(r, d))
+			case "ssa":
+				d := randSsaDoc(r)
+				for i := range d.Events {
+					var kept [][]ssaRunGT
+					for _, l := range d.Events[i].Lines {
+						if len(l) > 0 {
+							kept = append(kept, l)
+						}
+					}
+					if len(kept) == 0 {
+						kept = [][]ssaRunGT{{{Text: "x"}}}
+					}
+					d.Events[i].Lines = kept
+					for j := range d.Events[i].Lines {
+						for q := range d.Events[i].Lines[j] {
+							d.Events[i].Lines[j][q].Text = richWord(r, &k)
+						}
+					}
+				}
+				s, _, _ := renderSsa(r, d)
+				doc = []byte(s)
+			case "ttml":
+				cues := randSrtCues(r, 5, false)
+				for i := range cues {
+					for j := range cues[i].Lines {
+						for q := range cues[i].Lines[j] {
+							cues[i].Lines[j][q].Text = richWord(r, &k)
+						}
+					}
+				}
+				doc = renderTTMLRich(r, cues)
+			}
+			s0, err := src.read(doc)
+			if err != nil || len(s0.Items) == 0 {
+				continue
+			}
+			for _, dst := range plainCodecs {
+				pair := src.name + "->" + dst.name
+				if _, skip := plainStyledSkipPairs[pair]; skip {
+					R.count("plain.styled.restricted." + pair)
+					continue
+				}
+				if _, skip := plainSkipPairs[pair]; skip {
+					continue
+				}
+				s2, _ := src.read(doc)
+				var out bytes.Buffer
+				o := &obs{Suite: "convplain", Group: "plain.styled." + pair, Input: (&enc{}).n(src.code).n(dst.code).bytes(doc).String(), NT: true,
+					Human: map[string]interface{}{"source": src.name, "destination": dst.name, "document": string(doc)}}
+				R.count("plain.styled." + pair)
+				var werr error
+				p := safely(func() { werr = dst.write(s2, &out) })
+				switch {
+				case p != "":
+					o.Impl, o.Oracle, o.Sig = "2", fmt.Sprintf("%s -> %s panicked: %s", src.name, dst.name, p), "convplain-panic"
+				case werr != nil:
+					o.Impl = "1"
+				default:
+					o.Impl = (&enc{}).n(0).bytes(out.Bytes()).String()
+				}
+				R.add(o)
+			}
+		}
+	}
+}
